@@ -1,6 +1,6 @@
 (* C15 — diagnosis of the generated-table obligations: the offending entries by name (no proof involved). *)
 From Coq Require Import String List ZArith Bool.
-From V Require Import Model.C15_Config Model.C15_Valid Gen.ConfigSchemas.
+From V Require Import Model.C15_Config Model.C15_Valid Model.C15_Custom Gen.ConfigSchemas Gen.ConfigValidators Gen.ConfigCustoms.
 Import ListNotations.
 Open Scope string_scope.
 
@@ -11,19 +11,32 @@ Definition diag_default_valid := Eval vm_compute in
   flat_map (fun S => if validator_of (sname S) (fun _ => true) (cget S (defaults S)) then [] else [sapp "default invalid: " (sname S)]) all_schemas.
 Print diag_default_valid.
 
-Definition diag_validators_pinned := Eval vm_compute in
-  flat_map (fun S => match assoc_get (sname S) expected_valid_hash with
-                     | Some h => if String.eqb h (svalid_hash S) then [] else [sapp "Validate source changed, re-transcribe Model/C15_Valid.v: " (sapp (sname S) (sapp " now " (svalid_hash S)))]
-                     | None => [sapp "no validator transcription for section " (sname S)] end) all_schemas.
-Print diag_validators_pinned.
+(* sections whose translated Validate() is not the model's validator: the clauses that differ *)
+Definition diag_validators_source_is_model := Eval vm_compute in
+  flat_map (fun S => match assoc_get (sname S) gen_clause_table, assoc_get (sname S) model_clauses with
+                     | Some g, Some m => clause_diag (sname S) g m
+                     | None, _ => [sapp "no translated Validate() for section " (sname S)]
+                     | _, None => [sapp "no model clauses for section " (sname S)] end) all_schemas.
+Print diag_validators_source_is_model.
 
 Definition diag_customs_pinned := Eval vm_compute in
-  flat_map (fun S => flat_map (fun '(id, h) => match assoc_get id expected_custom_hash with
-                     | Some e => if String.eqb e h then [] else [sapp "custom rule source changed: " (sapp id (sapp " now " h))]
-                     | None => [sapp "rule not followed by the translator and not transcribed: " (sapp id (sapp " hash " h))] end) (scustom_hashes S)) all_schemas.
+  flat_map (fun S => flat_map (fun '(id, h) =>
+      if custom_translated gen_custom_rules id then [] else
+      match cr_get id gen_custom_rules, cr_get id model_custom_rules with
+      | Some r, Some r' => [String.concat "" ["custom rule "; id; ": the source has `"; show_crule r; "`, the model `"; show_crule r'; "`"]]
+      | Some r, None => [String.concat "" ["custom rule "; id; ": translated from the source (`"; show_crule r; "`) but the model has no rule for it"]]
+      | None, _ =>
+          match assoc_get id expected_custom_hash with
+          | Some e => if String.eqb e h then [] else [sapp "custom rule source changed: " (sapp id (sapp " now " h))]
+          | None => (sapp "rule not followed by the translator and not transcribed: " (sapp id (sapp " hash " h))) :: gen_custom_notes end
+      end) (scustom_hashes S)) all_schemas.
 Print diag_customs_pinned.
 
 Definition size_sections := Eval vm_compute in length all_schemas.
 Print size_sections.
 Definition size_members := Eval vm_compute in length (flat_map sfields all_schemas).
 Print size_members.
+Definition size_validate_clauses := Eval vm_compute in length (flat_map snd gen_clause_table).
+Print size_validate_clauses.
+Definition size_custom_rules_translated := Eval vm_compute in length gen_custom_rules.
+Print size_custom_rules_translated.
